@@ -71,8 +71,8 @@ R = [
     (r"^RenderTableRow::into_cells:Add\(colno, (cell\.)?colspan\)$", "INV-REMAP: RenderTable::new rewrote every colspan to a difference of indices into the sorted set of column positions, so per-row sums are bounded by the number of cells (A1); RenderTable is constructed only there (side condition checked)"),
     (r"^RenderTableRow::into_cells:Add\(col_width, cell.colspan\)$", "col_width is a sum of allocated column widths (each <= its size estimate, A1) and colspan is remap-bounded (INV-REMAP)"),
     (r"^RenderTableRow::into_cells:Sub\(\(col_width \+ cell.colspan\), 1_usize\)$", "executed only under col_width > 0 with colspan >= 1 (INV-COLSPAN1): the sum is at least 2"),
-    (r"^RenderTable::new:unwrap\(<K, V, S, A>::get\(&colmap, &nextpos\)\)$", "the positions looked up (running Σ max(colspan,1)) are the positions inserted (running Σ colspan) because colspan >= 1 on entry: tbody_to_render_tree replaces 0 (rule C06-E checks both walks and the writers of colspan)"),
-    (r"^RenderTable::new:Sub\(next_mapped_pos, mapped_pos\)$", "colmap maps the sorted positions to increasing indices and positions are non-decreasing along a row"),
+    (r"^RenderTable::new:unwrap\(<K, V, S, A>::get\(&colmap, &nextpos\)\)$", "[any-guard] the positions looked up (running Σ max(colspan,1)) are the positions inserted (running Σ colspan) because colspan >= 1 on entry: tbody_to_render_tree replaces 0 (rule C06-E checks both walks and the writers of colspan)"),
+    (r"^RenderTable::new:Sub\(next_mapped_pos, mapped_pos\)$", "[any-guard] colmap maps the sorted positions to increasing indices and positions are non-decreasing along a row"),
     (r"^RenderTable::calc_size_estimate:DivisionByZero\(cellsize\.", "INV-COLSPAN1: the divisor is cell.colspan, stored by RenderTable::new as (..).max(1) (side condition checked)"),
     (r"^RenderTable::calc_size_estimate:Add\(colno, ", "INV-REMAP (see into_cells)"),
     (r"^RenderTable::calc_size_estimate:index(_mut)?\(&(mut )?sizes, \(colno \+ colnum\)\)$", "INV-COLS: sizes has num_columns entries and colno + colnum < Σ colspan of the row <= num_columns"),
